@@ -55,6 +55,26 @@ def bits_of(x, n):
     return [(x / (1 << i)) % 2 for i in range(n)]
 
 
+def bit_vars(st, x, n):
+    """n fresh 0/1 integers constrained to be the binary digits of x (0 <= x < 2^n): linear
+    arithmetic instead of div/mod chains"""
+    cache = st.__dict__.setdefault('_bitvars', {})
+    k = (x.get_id(), n)
+    if k in cache:
+        return cache[k]
+    c = const_val(x)
+    if c is not None:
+        bs = [z3.IntVal((c >> i) & 1) for i in range(n)]
+    else:
+        bs = [z3.Int(fresh_name('bit%d' % i)) for i in range(n)]
+        st.assume(z3.And([z3.And(b >= 0, b <= 1) for b in bs] + [x == z3.Sum([b * (1 << i) for i, b in enumerate(bs)])]))
+        if n <= 8:
+            # link to the arithmetic reading of a bit used in specifications
+            st.assume(z3.And([(x / (1 << i)) % 2 == b for i, b in enumerate(bs)]))
+    cache[k] = bs
+    return bs
+
+
 def to_unsigned(types, x, tk):
     rng = types.int_range(tk)
     if rng is None or rng[0] == 0:
@@ -103,7 +123,10 @@ def bitop(types, op, x, y, tk, st=None):
             # clear bits of constant mask
             return bitop(types, '&', x, z3.IntVal(((1 << bits) - 1) & ~cy), tk, st)
     if bits <= 16:
-        bx, by = bits_of(ux, bits), bits_of(uy, bits)
+        if st is not None:
+            bx, by = bit_vars(st, ux, bits), bit_vars(st, uy, bits)
+        else:
+            bx, by = bits_of(ux, bits), bits_of(uy, bits)
         terms = []
         for i in range(bits):
             if op == '&':
